@@ -129,8 +129,9 @@ func (svg *SVGImage) drawNode(dst backend.Canvas, node *svgNode, dims drawingDim
 		if isText && text.isText {
 			textAnchor = text.textAnchor
 			if len(node.children) != 0 && text.text == "" {
-				child, _ := node.children[0].graphicContent.(*textSpan)
-				textAnchor = child.textAnchor
+				if child, ok := node.children[0].graphicContent.(*textSpan); ok {
+					textAnchor = child.textAnchor
+				}
 			}
 
 			if textAnchor == middle || textAnchor == end {
